@@ -28,6 +28,11 @@ def handle (args : List String) : Option String :=
         (step acc.1 tid, acc.2 ++ [lbl])) (init (legacy == "1") progs, [])
     let outs := showList (fun (o : Nat × Bool) => if o.2 then s!"d{o.1}" else "skip") s.outcomes.reverse
     pure s!"{".".intercalate labels} | {outs}"
+  | ["absrace", progs, sched] => do
+    -- number of K-C10-abs-race window steps of the schedule (`absRaceCount`, Model/StatsdAgg.lean)
+    let progs ← listTok progTok progs
+    let sched ← schedTok sched
+    pure (toString (absRaceCount (init false progs) false sched))
   | ["gauge", calls] => do
     let calls ← listTok (fun c => match c.toList with
       | ['f'] => some GCall.flush
